@@ -10,7 +10,7 @@ EXPLANATION = (
     "`!is_pinned(key, value)` evaluated on the value of the same OccupiedEntry (under the bucket lock). C16.b the policy forgets a key only "
     "after storage confirmed the removal; an unconfirmed victim is moved to the Pinned region (5 eviction sites). C16.c storage and policy "
     "messages are paired (insert -> Insert, remove -> Removed, unpin -> Unpinned) on every path. C16.d the three pin predicates read the state "
-    "their owners mutate (pin_count, dirty, Arc::strong_count). The numeric bound is NOT decided.")
+    "their owners mutate (pin_count, dirty, Arc::strong_count). The numeric bound is NOT decided. C16.j the lock table's pin predicate reads Arc::strong_count of the stored lock (C02.d).")
 
 NOT_DECIDED = [
     "the numeric residency bound (capacity + pinned + maintenance slack) for all access patterns",
@@ -621,3 +621,10 @@ def run(ctx):
     ctx.run_clause("C16.g", c16g)
     ctx.run_clause("C16.h", c16h)
     ctx.run_clause("C16.i", c16i)
+    # the third owner of a TinyLFU table is the per-query lock table: its pin predicate must say `somebody references this
+    # lock` (Arc::strong_count), not `somebody holds it` - between taking the instance and the first poll of the lock future
+    # a task owns an unlocked lock, and evicting it then hands the next asker a second lock for the same query (C02.d as C16.j)
+    from . import C02
+    ctx.alias = {"C02.d": "C16.j"}
+    ctx.run_clause("C16.j", C02.c02d)
+    ctx.alias = {}
